@@ -22,7 +22,7 @@ TEXT = {
  "C12": "two parts of the property are decided: (1) for every NaN / infinite time value or field, constructor, Date.UTC, setUTC* and 19 accessors yield NaN; (2) the field normalisation of Date.UTC (ToInteger per field, two-digit years) as a metamorphic equation with Go's time.Date an uninterpreted function. The calendar algebra for valid time values could not be decided by any available solver and is outside the claim",
  "C13": "bounded symbolic execution of Math built-ins over all doubles against IEEE/ES5 references (round, floor, ceil, abs, sqrt, trunc, max/min, the special-case table of pow), isNaN/isFinite, and of escape/unescape/URI coding on short symbolic strings and on every astral code point; transcendental functions are uninterpreted",
  "C15": "bounded symbolic execution of Set -> Get -> Export / To* for every Go scalar kind at full width, named kinds included, and the agreement of the Value predicates with typeof / Number() / Boolean()",
- "C16": "bounded symbolic execution of the numeric conversions of the bridge for any stored number x every numeric target kind through a reflect shim (Value.toReflectValue, runtime.convertCallParameter): an error the script sees, or the delivered Go value equals the JavaScript number; element writes (also past the end) to bridged slices through the public API; the conversion of property names to integer keys of bridged maps. The reflective call wrapper itself (arity, variadics), struct fields and the map operations of package reflect are outside the claim",
+ "C16": "bounded symbolic execution of the numeric conversions of the bridge for any stored number x every numeric target kind through a reflect shim (Value.toReflectValue, runtime.convertCallParameter): an error the script sees, or the delivered Go value equals the JavaScript number; element writes (also past the end) to bridged slices through the public API; the conversion of property names to integer keys of bridged maps; calls of a bridged non-variadic Go function from a script through the real reflective wrapper (arity check, argument conversion, return value). Variadic functions, struct fields and the map operations of package reflect are outside the claim",
  "C17": "symbolic execution of Otto.Copy through the public API on one setup program whose heap contains every reference kind the cloner distinguishes (closures over function / with / catch scopes, accessors, arguments objects, bound functions with object arguments, RegExp, wrapper, Error, Date, sparse array, modified built-in prototypes), scalars symbolic: observational equality of copy and copy-of-copy, and independence under 28 mutation programs applied to any of the three runtimes",
  "C18": "the interrupt poll of the real evaluator is made a symbolic choice: for fixed program families every poll index up to the bound is explored and the unwinding / rest-state / no-further-progress assertions are decided on each path; abnormal exits from 12 nested constructs; the stack depth limit for every limit and depth and, calibrated against an unlimited run, on 13 ways of entering an execution context",
  "C19": "bounded symbolic execution of the line/column arithmetic of parser and file package on symbolic source bytes against an ES5 7.3 line-terminator oracle; trace capture with symbolic limits; call-site line/column of every script frame for 18 call forms placed behind symbolic white space / line terminators; the native error class, name, prototype and message at 40 raise sites with symbolic offending operands",
